@@ -704,6 +704,24 @@ func c12rpc(c *Ctx, p *load.Program, idT *types.Named) {
 		})
 	}
 	R.Floor("C12.rpc.pre-lookup-exits", npre, 3)
+	// the batch query answers for every requested sequence: it returns successfully only after
+	// the range over the requested sequences is exhausted (a miss skips that sequence, it does
+	// not end the scan)
+	for _, f := range p.SrcFuncs(pkgPublicRPC) {
+		if fname(f) != "(*N/publicrpc.PublicrpcServer).GetNonGovernanceVAABatch" {
+			continue
+		}
+		for _, r := range acceptingReturns(f) {
+			done := false
+			fs := facts.Atoms(acceptFacts(r))
+			for _, at := range fs {
+				if strings.HasPrefix(at, "len(req.Sequences) <= ") {
+					done = true
+				}
+			}
+			R.Check("C12.rpc", R.Key("C12.rpc", shortFn(f), "batch-complete"), c.rel(p.Pos(instrPos(r))), "the batch query succeeds only after every requested sequence was looked up", done, "a successful return is reachable before the requested sequences are exhausted: stored VAAs after the first absent one are left out ("+strings.Join(fs, "; ")+")")
+		}
+	}
 	sort.Strings(info)
 	R.Note("informational (not counted): request-field -> ChainID conversions: %s", strings.Join(info, " | "))
 	// delegation + response bytes
